@@ -87,9 +87,10 @@ func plaintexts(thorough bool) []string {
 		}
 		return string(b)
 	}
-	l := []string{"", "Z", pat(16), pat(17), pat(4096)}
+	// (70000 > 64 KiB: larger than any buffer / segment size a cipher or copy loop is likely to use)
+	l := []string{"", "Z", pat(16), pat(17), pat(4096), pat(70000)}
 	if thorough {
-		l = append(l, pat(15), pat(33), pat(70000))
+		l = append(l, pat(15), pat(33), pat(140001))
 	}
 	return l
 }
@@ -584,14 +585,25 @@ func run(c *fw.Ctx) {
 					}
 					// truncations
 					for n := 0; n < len(raw); n++ {
-						if len(raw) > 300 && n > 40 && n < len(raw)-40 && n%97 != 0 {
-							continue // long files: every length near both ends, every 97th in between
+						// long files: EVERY length for the whole-file paths on the memory base; for the other
+						// write paths / the disk base every length near both ends and every 97th in between
+						sparse := len(raw) > 300 && n > 40 && n < len(raw)-40 && n%97 != 0
+						if sparse && !(w.Chunks == 0 && cfg.Base == "mem") {
+							continue
 						}
 						item++
 						if !c.Mine(item) {
 							continue
 						}
-						for _, r := range []rpath{rpaths[0], rpaths[2]} {
+						if c.Expired() {
+							c.NotExhaustive("deadline in truncation sweep")
+							return
+						}
+						reads := []rpath{rpaths[0], rpaths[2]}
+						if sparse {
+							reads = reads[:1]
+						}
+						for _, r := range reads {
 							c.R.Evaluations++
 							c.Count("truncations", 1)
 							res := tamperOne(cfg, raw[:n], r)
@@ -732,7 +744,7 @@ func replay(w json.RawMessage) (*fw.Violation, error) {
 
 func init() {
 	fw.Register(&fw.Check{ID: "C05", Level: "fault_enumeration",
-		Rule: "configurations = cipher{raw AES-GCM, tagged} x base{memory, disk} x secret{alpha,beta,''} x salt{salt1,salt2,''} x host-binding{off,on}; plaintexts of length {0,1,16,17,4096,(thorough: 15,33,70000)}; write path {WriteFile, Writer 1/3 chunks} x previous content {absent, shorter, longer} x read path {ReadFile, Reader buf 1/7/4096}; every other (secret,salt) of the pool plus one concatenation-colliding pair; two filespaces built from one caller-owned secret buffer with spare capacity and different salts, and the caller wiping its buffers afterwards; EVERY truncation length 0..N-1 and EVERY single-byte corruption (N positions x 255 values for short files; 3 values and strided interior positions for files > 300 bytes) of the stored bytes, each read on a fresh base; two filespaces (different secrets) x two files each written in alternation over all plaintext pairs x write-path pairs; name-space ops in lock-step with the tree model; plus 2-3 filespaces with different (and equal) secrets used from concurrent goroutines (write then read own file, then try every other tenant's secret on it) under every schedule with <= 2 (quick) / 3 (thorough) preemptions, with the race oracle on the encryptfs packages. distinct = cases, all non-trivial (each runs the real cipher)",
+		Rule: "configurations = cipher{raw AES-GCM, tagged} x base{memory, disk} x secret{alpha,beta,''} x salt{salt1,salt2,''} x host-binding{off,on}; plaintexts of length {0,1,16,17,4096,70000,(thorough: 15,33,140001)}; write path {WriteFile, Writer 1/3 chunks} x previous content {absent, shorter, longer} x read path {ReadFile, Reader buf 1/7/4096}; every other (secret,salt) of the pool plus one concatenation-colliding pair; two filespaces built from one caller-owned secret buffer with spare capacity and different salts, and the caller wiping its buffers afterwards; EVERY truncation length 0..N-1 (also of the 70 KB / 140 KB files on the whole-file paths; the other paths of long files: every length near both ends, every 97th between) and EVERY single-byte corruption (N positions x 255 values for short files; 3 values and strided interior positions for files > 300 bytes) of the stored bytes, each read on a fresh base; two filespaces (different secrets) x two files each written in alternation over all plaintext pairs x write-path pairs; name-space ops in lock-step with the tree model; plus 2-3 filespaces with different (and equal) secrets used from concurrent goroutines (write then read own file, then try every other tenant's secret on it) under every schedule with <= 2 (quick) / 3 (thorough) preemptions, with the race oracle on the encryptfs packages. distinct = cases, all non-trivial (each runs the real cipher)",
 		Run: run, Replay: replay,
 		Assumptions: []string{"crypto/rand.Reader is replaced by a deterministic never-repeating stream (nonce freshness stays observable)", "cryptographic strength is out of scope; host binding is exercised but a binding mismatch is not required to fail (the statement does not demand it)", "secrecy = stored bytes do not contain the plaintext (>= 8 bytes) nor its first 16 bytes"}})
 }
